@@ -23,12 +23,57 @@ CFGS = ["c"]
 
 
 def budget(tier):
-    return {"examples": 1600 if tier == "quick" else 12000,
+    return {"examples": 2400 if tier == "quick" else 16000,
             "soft_seconds": 240 if tier == "quick" else 2400}
 
 
+SEARCH = ["c-False-but-W-True", "c-True-but-p-False", "c-False-but-Z-True", "c-True-but-Z-False"]
+
+
+def search(seed):
+    """reference-only search (oracle-guided, as C04) for a query on which c-inference differs
+    from its neighbours in the inclusion order"""
+    want = SEARCH[seed % len(SEARCH)]
+    rnd = gen.rng(seed)
+    tried = 0
+    best = None
+    for _ in range(600):
+        n = rnd.randint(2, 4)
+        atoms, conds = gen.r_literal_base(rnd, n, rnd.randint(2, 5), max_ant=2)
+        conds = gen.repair_strong(atoms, conds)
+        if len(conds) < 2:
+            continue
+        sem = ref.Sem(atoms, conds)
+        M = ref.Model(sem)
+        qs = [gen.r_query(rnd, atoms) for _ in range(6)]
+        tried += 1
+        for B, A in qs:
+            a, v, f = sem.qmasks(B, A)
+            if not (a and v and f):
+                continue
+            w, z, p = M.system_w(a, v, f), M.system_z(a, v, f), M.p_entailment(a, v, f)
+            if want == "c-False-but-W-True" and not w:
+                continue
+            if want == "c-True-but-p-False" and p:
+                continue
+            c, _ = ref.c_inference_smt(sem, a, v, f)
+            hit = {"c-False-but-W-True": (not c) and w, "c-True-but-p-False": c and not p,
+                   "c-False-but-Z-True": (not c) and z, "c-True-but-Z-False": c and not z}[want]
+            if hit:
+                others = [q for q in qs if q != (B, A)][:2]
+                return gen.mk_case(atoms, conds, [(B, A)] + others, searched=want, tried=tried)
+        if best is None:
+            best = gen.mk_case(atoms, conds, qs[:3], searched="none", tried=tried)
+    best["tried"] = tried
+    return best
+
+
 def strategy(tier):
-    return gen.strong_case(1, 4, 5 if tier == "quick" else 6, unfals=True, qlo=3, qhi=5)
+    from hypothesis import strategies as st
+    return st.one_of(gen.strong_case(1, 4, 5 if tier == "quick" else 6, unfals=True, qlo=3, qhi=5),
+                     gen.strong_case(1, 4, 5 if tier == "quick" else 6, unfals=True, qlo=3, qhi=5),
+                     gen.multiclause_case(5, nq=3),
+                     st.integers(0, 2**40).map(search))
 
 
 def c_reps_in_box(sem):
@@ -55,6 +100,9 @@ def run_case(case, ctx):
     atoms, base, queries, allat, sem = opsem.build(case)
     if not base or not queries:
         return []
+    if case.get("searched"):
+        ctx.stratum("source:search")
+        ctx.extra["reference_only_candidates"] = ctx.extra.get("reference_only_candidates", 0) + case.get("tried", 0)
     M = ref.Model(sem)
     if not M.ok:
         ctx.stratum("skipped:not-in-domain")
@@ -98,6 +146,8 @@ def run_case(case, ctx):
                 ctx.stratum("c-True-but-p-False")
             if not exp[i] and M.system_w(a, v, f):
                 ctx.stratum("c-False-but-W-True")
+            if exp[i] != M.system_z(a, v, f):
+                ctx.stratum("c-True-but-Z-False" if exp[i] else "c-False-but-Z-True")
         else:
             ctx.stratum("query:vacuous")
         if not opsem.is_bool(got[i]):
@@ -113,9 +163,19 @@ def run_case(case, ctx):
     return out
 
 
+
+def extra_cases(tier, shard, nshards, ctx):
+    if tier != "thorough":
+        return
+    yield from opsem.corpus484(shard, nshards, ctx)
+
+
 def shrink(case):
     for c in gen.shrink_candidates(case):
-        yield gen.renumber(c)
+        c = gen.renumber(c)
+        c.pop("searched", None)
+        c.pop("tried", None)
+        yield c
 
 
 describe = opsem.describe
@@ -123,4 +183,4 @@ describe = opsem.describe
 
 def required_strata(tier):
     return ["expected=True", "expected=False", "unfalsifiable:mixed", "unfalsifiable:all",
-            "single-conditional", "c-True-but-p-False", "c-False-but-W-True", "base:constants"]
+            "single-conditional", "c-True-but-p-False", "c-False-but-W-True", "c-False-but-Z-True", "c-True-but-Z-False", "base:constants"]
